@@ -72,6 +72,11 @@ func (srv *Server) addNetworkDelay(sender hotstuff.ID) {
 	if !srv.lm.Enabled() {
 		return
 	}
+	// The sender ID is chosen by the peer (connection metadata, or the proposer field of a block in Kauri).
+	// An ID outside the latency matrix has no location: do not delay; the protocol rejects unknown senders.
+	if !srv.lm.Contains(sender) {
+		return
+	}
 	delay := srv.lm.Latency(srv.id, sender)
 	srv.logger.Debugf("Delay between %s and %s: %v\n", srv.lm.Location(srv.id), srv.lm.Location(sender), delay)
 	srv.lm.Delay(srv.id, sender)
